@@ -173,7 +173,7 @@ def check(prop, tier, only=None, nproc=None, write_evidence=True):
     code = 0
     for r, inst in zip(results, instances):
         if r["status"] == "violation":
-            code = max(code, 1)
+            code = 1                 # a replayed violation outranks an inconclusive instance, whichever came first
         elif r["status"] in ("error", "inconclusive") and code == 0:
             code = 2
     # every obligation names library functions it must be seen executing (guards against a harness that bypasses the code)
